@@ -280,6 +280,16 @@ def reconfig_shard(enc_kind, tier, only_comp=None, only_src_steps=None):
                     want = {"steps": dst["steps"], "dt": dst["dt"], "frequency": dst["frequency"]}
                     if enc_kind == "exp":
                         want["refrac"] = dst["dt"] if dst["refrac"] is None else dst["refrac"]
+                    if enc_kind == "exp" and comp:
+                        # a REJECTED assignment (frequency * refrac >= 1000 while compensating) must leave the encoder as it was
+                        for nm, badv in (("frequency", 5000.0), ("refrac", 50.0)):
+                            try:
+                                setattr(enc, nm, badv)
+                                tally.violation(f"exp:reconfigured:invalid-{nm}-accepted", case, f"{nm}={badv} accepted although frequency*refrac >= 1000 with compensation on")
+                            except ValueError:
+                                pass
+                            except Exception as ex:
+                                tally.violation(f"exception:exp:set-{nm}:{type(ex).__name__}", case, repr(ex))
                     got = {k: getattr(enc, k) for k in want}
                     if got != want:
                         bad = [k for k in want if got[k] != want[k]]
